@@ -31,26 +31,354 @@ def CmdOK (c : Ctx) : Cmd → Prop
   | .timedEnable pp pd hp hd => PowerOK c pp ∧ DurOK c pd ∧ HoldOK c hp ∧ TimedOK c hd
   | .disable => True
 
+/-- what `Props/C08.lean` proves about the four translated limit functions, as one hypothesis for the lemmas here -/
+structure VerifySound (c : Ctx) : Prop where
+  ms : ∀ x v, vPulseMs c x = .ok v → DurOK c v
+  pw : ∀ x v, vPulsePower c x = .ok v → PowerOK c v
+  hp : ∀ x v, vHoldPower c x = .ok v → HoldOK c v
+  te : ∀ x v, vTimedMs c x = .ok v → TimedOK c v
+
+/-- a PSU-delayed call carries verified arguments -/
+def PendOK (c : Ctx) : Pend → Prop
+  | .pulseNow _ pm pp => DurOK c pm ∧ PowerOK c pp
+  | .enableNow _ pm pp h => DurOK c pm ∧ PowerOK c pp ∧ HoldOK c h ∧ pyCmp "==" h (.flt 0) = .ok false
+
+def PendsOK (c : Ctx) (s : Driver.St) : Prop := ∀ p ∈ s.pend, PendOK c p
+
+theorem fireTd_cmds (s : Driver.St) : (fireTd s).1.pend = s.pend ∧ ∀ cmd ∈ (fireTd s).2, cmd = .disable := by
+  unfold fireTd
+  split
+  · split
+    · exact ⟨rfl, by simp [doDisable]⟩
+    · exact ⟨rfl, by simp⟩
+  · exact ⟨rfl, by simp⟩
+
+theorem fireLim_cmds (s : Driver.St) : (fireLim s).1.pend = s.pend ∧ ∀ cmd ∈ (fireLim s).2, cmd = .disable := by
+  unfold fireLim
+  split
+  · split
+    · exact ⟨rfl, by simp [doDisable]⟩
+    · exact ⟨rfl, by simp⟩
+  · exact ⟨rfl, by simp⟩
+
 theorem fireDue_cmds (s : Driver.St) : ∀ cmd ∈ (fireDue s).2, cmd = .disable := by
   intro cmd h
   unfold fireDue at h
-  simp only [doDisable] at h
-  split at h <;> split at h <;> (try split at h) <;> (try split at h) <;> simp_all
+  rcases List.mem_append.1 h with h | h
+  · exact (fireTd_cmds s).2 cmd h
+  · exact (fireLim_cmds _).2 cmd h
 
-theorem advanceTo_cmds (fuel : Nat) (s : Driver.St) (target : Nat) :
-    ∀ tc ∈ (advanceTo fuel s target).2, tc.2 = .disable := by
+theorem fireDue_pend (s : Driver.St) : (fireDue s).1.pend = s.pend := by
+  unfold fireDue
+  rw [(fireLim_cmds _).1, (fireTd_cmds s).1]
+
+theorem timedEnable_cmds' (c : Ctx) (hv : VerifySound c) (s s' : Driver.St) (te hp ms pw : PyVal) (cmds : List Cmd)
+    (h : doTimedEnable c s te hp ms pw = .ok (s', cmds)) : s' = s ∧ ∀ cmd ∈ cmds, CmdOK c cmd := by
+  simp only [doTimedEnable, bind, Except.bind] at h
+  cases h1 : vPulseMs c ms with
+  | error e => simp [h1] at h
+  | ok pd =>
+    cases h2 : vPulsePower c pw with
+    | error e => simp [h1, h2] at h
+    | ok pp =>
+      cases h3 : vTimedMs c te with
+      | error e => simp [h1, h2, h3] at h
+      | ok hd =>
+        cases h4 : vHoldPower c hp with
+        | error e => simp [h1, h2, h3, h4] at h
+        | ok hh =>
+          simp only [h1, h2, h3, h4, pure, Except.pure, Except.ok.injEq, Prod.mk.injEq] at h
+          obtain ⟨rfl, rfl⟩ := h
+          refine ⟨rfl, ?_⟩
+          intro cmd hc
+          simp only [List.mem_singleton] at hc
+          subst hc
+          exact ⟨hv.pw _ _ h2, hv.ms _ _ h1, hv.hp _ _ h4, hv.te _ _ h3⟩
+
+/-- `_pulse_now` with verified values emits a hardware pulse, a re-verified timed enable, or the software-timed
+enable whose hold power is the verified pulse power; it never touches the delayed calls -/
+theorem pulseNow_cmds' (c : Ctx) (hv : VerifySound c) (s s' : Driver.St) (pm pp : PyVal) (cmds : List Cmd)
+    (hd : DurOK c pm) (hp : PowerOK c pp) (h : pulseNow c s pm pp = .ok (s', cmds)) :
+    s'.pend = s.pend ∧ ∀ cmd ∈ cmds, CmdOK c cmd := by
+  unfold pulseNow at h
+  split at h
+  · obtain ⟨rfl, hc⟩ := timedEnable_cmds' c hv s s' _ _ _ _ cmds h
+    exact ⟨rfl, hc⟩
+  · simp only [bind, Except.bind] at h
+    cases h1 : pyCmp "<" (.int 0) pm with
+    | error e => simp [h1] at h
+    | ok a =>
+      cases h2 : pyCmp "<=" pm (c.env "max_pulse") with
+      | error e => simp [h1, h2] at h
+      | ok b =>
+        simp only [h1, h2] at h
+        split at h
+        · simp only [pure, Except.pure, Except.ok.injEq, Prod.mk.injEq] at h
+          obtain ⟨rfl, rfl⟩ := h
+          refine ⟨rfl, ?_⟩
+          intro cmd hc; simp only [List.mem_singleton] at hc; subst hc
+          exact ⟨hp, hd⟩
+        · simp only [pure, Except.pure, Except.ok.injEq, Prod.mk.injEq] at h
+          obtain ⟨rfl, rfl⟩ := h
+          refine ⟨rfl, ?_⟩
+          intro cmd hc; simp only [List.mem_singleton] at hc; subst hc
+          exact ⟨hp, by simp⟩
+
+theorem enableNow_cmds (c : Ctx) (s : Driver.St) (pm pp h : PyVal) (hd : DurOK c pm) (hp : PowerOK c pp)
+    (hh : HoldOK c h) (h0 : pyCmp "==" h (.flt 0) = .ok false) :
+    (enableNow c s pm pp h).1.pend = s.pend ∧ ∀ cmd ∈ (enableNow c s pm pp h).2, CmdOK c cmd := by
+  unfold enableNow
+  refine ⟨by simp only []; split <;> rfl, ?_⟩
+  intro cmd hc; simp only [List.mem_singleton] at hc; subst hc
+  exact ⟨hp, by simp only [Bool.false_eq_true, if_false]; exact ⟨hd, hh, h0⟩⟩
+
+theorem mem_append_single {α} {l : List α} {a x : α} (h : x ∈ l ++ [a]) : x ∈ l ∨ x = a := by
+  simpa using h
+
+/-- every platform command built by one request respects the limits, and every call the request leaves pending carries
+verified arguments -/
+theorem op_cmds' (c : Ctx) (hv : VerifySound c) (s s' : Driver.St) (op : Op) (cmds : List Cmd) (hs : PendsOK c s)
+    (h : doOp c s op = .ok (s', cmds)) : PendsOK c s' ∧ ∀ cmd ∈ cmds, CmdOK c cmd := by
+  cases op with
+  | pulse ms pw =>
+    simp only [doOp, bind, Except.bind] at h
+    cases h1 : vPulseMs c ms with
+    | error e => simp [h1] at h
+    | ok pm =>
+      cases h2 : vPulsePower c pw with
+      | error e => simp [h1, h2] at h
+      | ok pp =>
+        simp only [h1, h2] at h
+        obtain ⟨hp, hc⟩ := pulseNow_cmds' c hv s s' pm pp cmds (hv.ms _ _ h1) (hv.pw _ _ h2) h
+        exact ⟨by unfold PendsOK; rw [hp]; exact hs, hc⟩
+  | pulseW ms pw mw w =>
+    simp only [doOp, bind, Except.bind] at h
+    cases h1 : vPulseMs c ms with
+    | error e => simp [h1] at h
+    | ok pm =>
+      cases h2 : vPulsePower c pw with
+      | error e => simp [h1, h2] at h
+      | ok pp =>
+        cases h3 : pyCmp ">" (waitOf mw w) (.int 0) with
+        | error e => simp [h1, h2, h3] at h
+        | ok b =>
+          cases b with
+          | true =>
+            simp only [h1, h2, h3, if_true, pure, Except.pure, Except.ok.injEq, Prod.mk.injEq] at h
+            obtain ⟨rfl, rfl⟩ := h
+            refine ⟨?_, by simp⟩
+            intro p hp
+            rcases mem_append_single hp with hp | rfl
+            · exact hs p hp
+            · exact ⟨hv.ms _ _ h1, hv.pw _ _ h2⟩
+          | false =>
+            simp only [h1, h2, h3, Bool.false_eq_true, if_false] at h
+            obtain ⟨hp, hc⟩ := pulseNow_cmds' c hv s s' pm pp cmds (hv.ms _ _ h1) (hv.pw _ _ h2) h
+            exact ⟨by unfold PendsOK; rw [hp]; exact hs, hc⟩
+  | enable ms pw hp =>
+    simp only [doOp, bind, Except.bind] at h
+    cases h1 : vPulseMs c ms with
+    | error e => simp [h1] at h
+    | ok pm =>
+      cases h2 : vPulsePower c pw with
+      | error e => simp [h1, h2] at h
+      | ok pp =>
+        cases h3 : vHoldPower c hp with
+        | error e => simp [h1, h2, h3] at h
+        | ok hh =>
+          cases h4 : pyCmp "==" hh (.flt 0) with
+          | error e => simp [h1, h2, h3, h4] at h
+          | ok z =>
+            cases z with
+            | true => simp [h1, h2, h3, h4, throw, throwThe, MonadExceptOf.throw] at h
+            | false =>
+              simp only [h1, h2, h3, h4, pure, Except.pure, Except.ok.injEq, Bool.false_eq_true, if_false] at h
+              have key := enableNow_cmds c s pm pp hh (hv.ms _ _ h1) (hv.pw _ _ h2) (hv.hp _ _ h3) h4
+              rw [h] at key
+              exact ⟨by unfold PendsOK; rw [key.1]; exact hs, key.2⟩
+  | enableW ms pw hp mw w =>
+    simp only [doOp, bind, Except.bind] at h
+    cases h1 : vPulseMs c ms with
+    | error e => simp [h1] at h
+    | ok pm =>
+      cases h2 : vPulsePower c pw with
+      | error e => simp [h1, h2] at h
+      | ok pp =>
+        cases h3 : vHoldPower c hp with
+        | error e => simp [h1, h2, h3] at h
+        | ok hh =>
+          cases h4 : pyCmp "==" hh (.flt 0) with
+          | error e => simp [h1, h2, h3, h4] at h
+          | ok z =>
+            cases z with
+            | true => simp [h1, h2, h3, h4, throw, throwThe, MonadExceptOf.throw] at h
+            | false =>
+              cases h5 : pyCmp ">" (waitOf mw w) (.int 0) with
+              | error e => simp [h1, h2, h3, h4, h5] at h
+              | ok b =>
+                cases b with
+                | true =>
+                  simp only [h1, h2, h3, h4, h5, if_true, pure, Except.pure, Except.ok.injEq, Prod.mk.injEq,
+                    Bool.false_eq_true, if_false] at h
+                  obtain ⟨rfl, rfl⟩ := h
+                  refine ⟨?_, by simp⟩
+                  intro p hp
+                  rcases mem_append_single hp with hp | rfl
+                  · exact hs p hp
+                  · exact ⟨hv.ms _ _ h1, hv.pw _ _ h2, hv.hp _ _ h3, h4⟩
+                | false =>
+                  simp only [h1, h2, h3, h4, h5, pure, Except.pure, Except.ok.injEq, Bool.false_eq_true, if_false] at h
+                  have key := enableNow_cmds c s pm pp hh (hv.ms _ _ h1) (hv.pw _ _ h2) (hv.hp _ _ h3) h4
+                  rw [h] at key
+                  exact ⟨by unfold PendsOK; rw [key.1]; exact hs, key.2⟩
+  | timedEnable te hp ms pw =>
+    obtain ⟨rfl, hc⟩ := timedEnable_cmds' c hv s s' _ _ _ _ cmds h
+    exact ⟨hs, hc⟩
+  | timedEnableW te hp ms pw mw =>
+    obtain ⟨rfl, hc⟩ := timedEnable_cmds' c hv s s' _ _ _ _ cmds h
+    exact ⟨hs, hc⟩
+  | disable =>
+    simp only [doOp, doDisable, pure, Except.pure, Except.ok.injEq, Prod.mk.injEq] at h
+    obtain ⟨rfl, rfl⟩ := h
+    refine ⟨hs, ?_⟩
+    intro cmd hc; simp only [List.mem_singleton] at hc; subst hc; trivial
+  | advance dt =>
+    simp only [doOp, pure, Except.pure, Except.ok.injEq, Prod.mk.injEq] at h
+    obtain ⟨rfl, rfl⟩ := h
+    exact ⟨hs, by simp⟩
+  | fire w =>
+    simp only [doOp, pure, Except.pure, Except.ok.injEq, Prod.mk.injEq] at h
+    obtain ⟨rfl, rfl⟩ := h
+    exact ⟨hs, by simp⟩
+
+theorem runPend_cmds (c : Ctx) (hv : VerifySound c) (s : Driver.St) (p : Pend) (hp : PendOK c p) :
+    (runPend c s p).1.pend = s.pend ∧ ∀ cmd ∈ (runPend c s p).2, CmdOK c cmd := by
+  cases p with
+  | pulseNow d pm pp =>
+    simp only [runPend]
+    cases h : pulseNow c s pm pp with
+    | error e => exact ⟨rfl, by simp⟩
+    | ok r =>
+      obtain ⟨s', cmds⟩ := r
+      exact pulseNow_cmds' c hv s s' pm pp cmds hp.1 hp.2 h
+  | enableNow d pm pp h =>
+    simp only [runPend]
+    exact enableNow_cmds c s pm pp h hp.1 hp.2.1 hp.2.2.1 hp.2.2.2
+
+theorem mem_eraseIdx {α} {l : List α} {i : Nat} {x : α} (h : x ∈ l.eraseIdx i) : x ∈ l :=
+  List.mem_of_mem_eraseIdx h
+
+/-- running one timer: commands within the limits, the remaining delayed calls still verified -/
+theorem runTimer_cmds (c : Ctx) (hv : VerifySound c) (s : Driver.St) (w : Which) (hs : PendsOK c s) :
+    PendsOK c (runTimer c s w).1 ∧ ∀ cmd ∈ (runTimer c s w).2, CmdOK c cmd := by
+  cases w with
+  | td => exact ⟨hs, by intro cmd hc; simp [runTimer, doDisable] at hc; subst hc; trivial⟩
+  | lim => exact ⟨hs, by intro cmd hc; simp [runTimer, doDisable] at hc; subst hc; trivial⟩
+  | pend i =>
+    simp only [runTimer]
+    cases hp : s.pend[i]? with
+    | none => exact ⟨hs, by simp⟩
+    | some p =>
+      simp only []
+      have hmem : p ∈ s.pend := List.mem_of_getElem? hp
+      obtain ⟨h1, h2⟩ := runPend_cmds c hv { s with pend := s.pend.eraseIdx i } p (hs p hmem)
+      refine ⟨?_, h2⟩
+      unfold PendsOK
+      rw [h1]
+      intro q hq
+      exact hs q (mem_eraseIdx hq)
+
+theorem advanceTo_cmds (c : Ctx) (hv : VerifySound c) (fuel : Nat) (s : Driver.St) (target : Nat) (hs : PendsOK c s) :
+    PendsOK c (advanceTo c fuel s target).1 ∧ ∀ tc ∈ (advanceTo c fuel s target).2, CmdOK c tc.2 := by
   induction fuel generalizing s with
-  | zero => simp [advanceTo]
+  | zero => exact ⟨hs, by simp [advanceTo]⟩
   | succ f ih =>
-    intro tc h
-    unfold advanceTo at h
+    unfold advanceTo
+    split
+    · rename_i d hd
+      split
+      · have h1 := runTimer_cmds c hv { s with now := max d s.now } (firstAt s d) hs
+        have h2 := ih (runTimer c { s with now := max d s.now } (firstAt s d)).1 h1.1
+        refine ⟨h2.1, ?_⟩
+        intro tc htc
+        simp only [List.mem_append, List.mem_map] at htc
+        rcases htc with ⟨x, hx, rfl⟩ | htc
+        · exact h1.2 x hx
+        · exact h2.2 tc htc
+      · exact ⟨hs, by simp⟩
+    · exact ⟨hs, by simp⟩
+
+/-- what `step` does for a request (everything but `advance` / `fire`) -/
+def reqStep (c : Ctx) (s : Driver.St) (op : Op) : Driver.St × Bool × List (Nat × Cmd) :=
+  match doOp c s op with
+  | .ok (s1, o1) => ((fireDue s1).1, true, (o1 ++ (fireDue s1).2).map (fun x => (s.now, x)))
+  | .error _ => ((fireDue s).1, false, (fireDue s).2.map (fun x => (s.now, x)))
+
+theorem step_cases (c : Ctx) (s : Driver.St) (op : Op) :
+    (∃ dt, op = .advance dt ∧ step c s op = ((advance c s dt).1, true, (advance c s dt).2)) ∨
+    (∃ w, op = .fire w ∧ step c s op = (match fire c s w with
+      | some (s', o) => (s', true, o.map (fun x => (s'.now, x)))
+      | none => (s, false, []))) ∨
+    step c s op = reqStep c s op := by
+  cases op with
+  | advance dt => exact Or.inl ⟨dt, rfl, rfl⟩
+  | fire w => exact Or.inr (Or.inl ⟨w, rfl, rfl⟩)
+  | _ =>
+    refine Or.inr (Or.inr ?_)
+    simp only [step, reqStep]
+    generalize doOp c s _ = r
+    rcases r with e | ⟨s1, o1⟩ <;> rfl
+
+theorem fire_cmds (c : Ctx) (hv : VerifySound c) (s s' : Driver.St) (w : Which) (o : List Cmd) (hs : PendsOK c s)
+    (h : fire c s w = some (s', o)) : PendsOK c s' ∧ ∀ cmd ∈ o, CmdOK c cmd := by
+  unfold fire at h
+  cases hd : dueOf s w with
+  | none => simp [hd] at h
+  | some d =>
+    simp only [hd] at h
     split at h
-    · split at h
-      · simp only [List.mem_append, List.mem_map] at h
-        rcases h with ⟨c, hc, rfl⟩ | h
-        · exact fireDue_cmds _ c hc
-        · exact ih _ tc h
-      · simp at h
+    · simp only [Option.some.injEq] at h
+      have h1 := runTimer_cmds c hv { s with now := max d s.now } w hs
+      rw [h] at h1
+      exact h1
     · simp at h
+
+/-- one harness step: every command within the limits, every call left pending verified -/
+theorem step_cmds (c : Ctx) (hv : VerifySound c) (s : Driver.St) (op : Op) (hs : PendsOK c s) :
+    PendsOK c (step c s op).1 ∧ ∀ tc ∈ (step c s op).2.2, CmdOK c tc.2 := by
+  rcases step_cases c s op with ⟨dt, _, h⟩ | ⟨w, _, h⟩ | h
+  · rw [h]; exact advanceTo_cmds c hv _ s _ hs
+  · rw [h]
+    cases hf : fire c s w with
+    | none => exact ⟨hs, by simp⟩
+    | some r =>
+      obtain ⟨s', o⟩ := r
+      have h1 := fire_cmds c hv s s' w o hs hf
+      refine ⟨h1.1, ?_⟩
+      intro tc htc
+      simp only [List.mem_map] at htc
+      obtain ⟨x, hx, rfl⟩ := htc
+      exact h1.2 x hx
+  · rw [h]
+    unfold reqStep
+    cases hop : doOp c s op with
+    | error e =>
+      simp only []
+      refine ⟨by unfold PendsOK; rw [fireDue_pend]; exact hs, ?_⟩
+      intro tc htc
+      simp only [List.mem_map] at htc
+      obtain ⟨x, hx, rfl⟩ := htc
+      rw [fireDue_cmds _ x hx]; trivial
+    | ok r =>
+      obtain ⟨s1, o1⟩ := r
+      simp only []
+      have h1 := op_cmds' c hv s s1 op o1 hs hop
+      refine ⟨by unfold PendsOK; rw [fireDue_pend]; exact h1.1, ?_⟩
+      intro tc htc
+      simp only [List.mem_map, List.mem_append] at htc
+      obtain ⟨x, hx, rfl⟩ := htc
+      rcases hx with hx | hx
+      · exact h1.2 x hx
+      · rw [fireDue_cmds _ x hx]; trivial
 
 end MpfVerif.C08
